@@ -52,6 +52,7 @@ var propScopeOut = map[string][]string{
 // which side is wrong, so for the listed properties they are never filtered by package.
 var propScopeKeep = map[string][]string{
 	"C03": {"R-members"},
+	"C06": {"R-lex-parse-filename"},
 	"C16": {"R-twin-tables"},
 	"C09": {"R-members"},
 }
